@@ -242,12 +242,18 @@ def _protocol_worker(
     except ZeroDivisionError:
         res = Result(Exception())
 
-    time_points = np.linspace(
-        0,
-        protocol.index[-1].total_seconds(),
-        len(protocol) * time_points_per_step,
+    # Placeholder on the time grid a successful run has: the start and
+    # time_points_per_step points per protocol step
+    t_start = 0.0
+    time_points = [t_start]
+    for t_end in protocol.index:
+        time_points.extend(
+            np.linspace(t_start, t_end.total_seconds(), time_points_per_step + 1)[1:]
+        )
+        t_start = t_end.total_seconds()
+    return res.default(
+        lambda: Simulation.default(model=model, time_points=np.array(time_points))
     )
-    return res.default(lambda: Simulation.default(model=model, time_points=time_points))
 
 
 def _protocol_time_course_worker(
@@ -283,7 +289,13 @@ def _protocol_time_course_worker(
     except ZeroDivisionError:
         res = Result(Exception())
 
-    return res.default(lambda: Simulation.default(model=model, time_points=time_points))
+    # Placeholder on the time grid a successful run has: the start, the requested
+    # time points inside the protocol and the step boundaries
+    t_steps = protocol.index.total_seconds()  # type: ignore
+    t_inside = np.array(time_points, dtype=float)
+    t_inside = t_inside[(t_inside > 0) & (t_inside <= t_steps[-1])]
+    grid = np.unique(np.concatenate(([0.0], t_inside, t_steps)))
+    return res.default(lambda: Simulation.default(model=model, time_points=grid))
 
 
 @dataclass(kw_only=True, slots=True)
